@@ -32,6 +32,12 @@ def gen_cases(tier, seed):
 
 def make(case):
     rnd = random.Random(case['seed'])
+    if 'spec' in case:
+        # replay of a recorded violation: the design and the generator state are taken from the replay file, so the
+        # replay does not depend on the generator version that produced it
+        st = case['rnd_state']
+        rnd.setstate((st[0], tuple(st[1]), st[2]))
+        return rnd, case['spec'], case['feats']
     size = rnd.choice([4, 6, 8, 12, 16])
     spec, feats = bgm.gen_seq_design(rnd, size=size, step_cond=rnd.random() < 0.2)
     return rnd, spec, feats
@@ -39,6 +45,7 @@ def make(case):
 
 def run_case(case):
     rnd, spec, feats = make(case)
+    rnd_state = rnd.getstate()
     quick = case.get('tier', 'quick') == 'quick'
     out = pg.run_design(spec, rnd, explore_budget=120 if quick else 600, random_clocks=200 if quick else 1000,
                         max_depth=12)
@@ -50,6 +57,7 @@ def run_case(case):
         v['cohdl_source'] = out['src']
         v['reference_source'] = out.get('refsrc')
         v['vhdl'] = out.get('text')
+        v['replay_case'] = {'spec': spec, 'feats': sorted(feats), 'rnd_state': rnd_state}
     sig = None
     if out['status'] == 'compared':
         cnt['compared'] += 1
